@@ -7,6 +7,7 @@
 package lnmodel
 
 import (
+	"strings"
 	"context"
 	"crypto/sha256"
 	"encoding/hex"
@@ -142,7 +143,7 @@ func (n *Network) newInvoice(amountMsat uint64, owner *Backend) (*Invoice, error
 	}
 	i := &Invoice{Request: s, Hash: hex.EncodeToString(h[:]), Preimage: hex.EncodeToString(pre[:]), AmountMsat: amountMsat, Owner: owner}
 	n.invoices[i.Hash] = i
-	n.byReq[s] = i
+	n.byReq[strings.ToLower(s)] = i
 	return i, nil
 }
 
@@ -183,7 +184,7 @@ func (n *Network) ForgedInvoice(hash string, amountMsat uint64) *Invoice {
 		panic(err)
 	}
 	i := &Invoice{Request: s, Hash: hash, AmountMsat: amountMsat, Forged: true}
-	n.byReq[s] = i
+	n.byReq[strings.ToLower(s)] = i
 	return i
 }
 
@@ -196,7 +197,7 @@ func (n *Network) InvoiceByHash(h string) *Invoice {
 func (n *Network) InvoiceByRequest(r string) *Invoice {
 	n.mu.Lock()
 	defer n.mu.Unlock()
-	return n.byReq[r]
+	return n.byReq[strings.ToLower(r)] // bech32: the upper-case spelling is the same invoice
 }
 
 // PayExternally settles a mint-quote invoice from outside (a user paid it). Returns false if unknown or
@@ -470,7 +471,7 @@ func (b *Backend) pay(c *Call, request string, amountMsat, maxFee uint64) (light
 		ans = b.PayScript[0]
 		b.PayScript = b.PayScript[1:]
 	}
-	if inv := b.Net.byReq[request]; inv != nil && inv.Forged {
+	if inv := b.Net.byReq[strings.ToLower(request)]; inv != nil && inv.Forged {
 		// the payee of an invoice that borrowed somebody else's payment hash cannot settle the HTLC
 		ans = PayFailed
 	}
